@@ -36,6 +36,17 @@ def make_case(rng):
             steps.append(['with_call', rng.below(6)])
         else:
             steps.append(['snapshot'])
+    r2 = rng.fork('raw-window')
+    if r2.chance(1, 3):
+        # a window opened with the plain switch (enable() / disable(): the count stays 0 while the tracing is on), read in the middle
+        raw = [['enable_raw'], ['call', r2.below(6)], ['snapshot'], ['call', r2.below(6)]]
+        if r2.chance(1, 2):
+            raw += [['enbc'], ['call', r2.below(6)], ['snapshot']]       # a counted window inside: its end switches the tracing off
+            if r2.chance(1, 2):
+                raw += [['disbc'], ['call', r2.below(6)]]
+        raw += [['snapshot'], ['disable_raw'], ['snapshot']]
+        at = r2.below(len(steps) + 1)
+        steps[at:at] = raw
     steps.append(['snapshot'])
     return {'prog': prog, 'steps': steps, 'time': True}
 
